@@ -318,7 +318,7 @@ def obligations(tier):
         make("C02.grid.2f5.A", 2, 5, 8, "A", tiers=("thorough",), cost=20),
         make("C02.grid.2f4.rank", 2, 4, 6, "A", tiers=("thorough",), unique_mode="rank", cost=20,
              title="cross-check with the functional (rank-by-counting) encoding of np.unique"),
-        make("C02.grid.prism.A", 5, 4, 6, "A", fixed=_prism, tiers=("thorough",), cost=30,
+        make("C02.grid.prism.A", 5, 4, 6, "A", fixed=_prism, tiers=(), cost=30,      # withdrawn: no path completed within 3000 s in the 52-minute thorough run (DESIGN section 8)
              title="triangular prism (mixed 3/4-gons), every numbering and start corner symbolic (+ Euler)"),
     ]
     return [o for o in obs if tier in o.tiers]
